@@ -462,21 +462,24 @@ def _parse_config(raw_cfg: RawConfig) -> Config:
     return cfg
 
 
+# a section header, possibly indented and followed by a comment
+RE_SECTION_HEADER = re.compile(r"^\s*(\[[^\[\]\"'=]+\])\s*([#;].*)?$")
+
+
 def _parse_current_version_default_pattern(raw_cfg: RawConfig, raw_cfg_text: str) -> str:
     is_config_section = False
     for line in raw_cfg_text.splitlines():
-        if is_config_section and line.startswith("current_version"):
+        # keys may be indented (toml)
+        stripped_line = line.strip()
+        if is_config_section and stripped_line.startswith("current_version"):
             # the raw values may still carry the quotes of the config syntax
             current_version: str = raw_cfg['current_version'].strip("'\" ")
             version_pattern: str = raw_cfg['version_pattern'].strip("'\" ")
-            return line.replace(current_version, version_pattern)
+            return stripped_line.replace(current_version, version_pattern)
 
-        if line.strip() == "[pycalver]":
-            is_config_section = True
-        elif line.strip() == "[bumpver]":
-            is_config_section = True
-        elif line.strip() == "[tool.bumpver]":
-            is_config_section = True
+        header_match = RE_SECTION_HEADER.match(line)
+        if header_match:
+            is_config_section = header_match.group(1) in ("[pycalver]", "[bumpver]", "[tool.bumpver]")
         elif line and line[0] == "[" and line[-1] == "]":
             is_config_section = False
 
